@@ -139,12 +139,13 @@ class Models:
     def __init__(self):
         self.ext_call = {}
         self.methods = {}
-        from . import models_np, models_py, models_io, models_xr, models_pp
+        from . import models_np, models_py, models_io, models_xr, models_pp, models_more
         models_py.register(self)
         models_np.register(self)
         models_io.register(self)
         models_xr.register(self)
         models_pp.register(self)
+        models_more.register(self)
 
     # -------------------------------------------------------------------------------------------
     # imports
@@ -222,6 +223,20 @@ class Models:
         return models_np.getattr_model(self, interp, obj, name, node)
 
     def setattr(self, interp, obj, name, v, node):
+        from .vec import Vec, El, m_norm
+        if isinstance(obj, Vec) and name == 'mask' and obj.kind == 'ma':
+            # assigning a mask: element masks become the given booleans (a scalar applies to all)
+            if obj.back.owner is not None:
+                interp.event('mutation', owner=obj.back.owner, what='.mask =', node=node)
+            if isinstance(v, Vec):
+                if len(v) != len(obj):
+                    raise AbsRaise(ExcVal('ValueError', ('mask shape mismatch',)), node)
+                ms = [bool_of_el(e.d) for e in v.els()]
+            else:
+                ms = [X.TRUE if interp.truth(v, node) is True else X.FALSE] * len(obj)
+            for i, f in enumerate(ms):
+                obj.set(i, El(obj.el(i).d, m_norm(f)))
+            return
         raise AnalysisError(f'attribute store on {type(obj).__name__}.{name} not modelled', node,
                             where=_where(interp, node))
 
